@@ -4,7 +4,7 @@
    it is what the correspondence check establishes on every run.  The theorems
    are the structural laws the property names, for arbitrary sub-expressions,
    and the independence of the answer from the fuel. *)
-From YQ Require Import Base.Str Model.Node Model.Store Model.Eval Proofs.EvalLaws Proofs.EvalFuel Proofs.EvalTotal Proofs.GlobProofs Proofs.EvalNoPanic.
+From YQ Require Import Base.Str Model.Node Model.Store Model.Eval Proofs.EvalLaws Proofs.EvalFuel Proofs.EvalTotal Proofs.GlobProofs Proofs.EvalNoPanic Proofs.GlobSpec.
 
 (* `|` composes *)
 Theorem C01_pipe_composes : forall f l r ro vs ctx st,
@@ -99,6 +99,14 @@ Theorem C01_glob_plain_is_equality : forall name pat,
   is_wild pat = false -> Bounds.match_key name pat = Bounds.Ok (str_eqb name pat).
 Proof. exact match_key_plain. Qed.
 Print Assumptions C01_glob_plain_is_equality.
+
+(* ... and on every pattern it decides exactly the glob relation ([glob]: `*` any byte sequence, `?` any one byte,
+   any other byte itself): the one-restart-point linear-time algorithm of matchKeyString.go is correct, so key
+   traversal by pattern and `==` against a pattern mean what the documentation says, for all names and patterns *)
+Theorem C01_key_matching_is_glob : forall name pat,
+  Bounds.match_key name pat = Bounds.Ok (glob pat name) /\ glob_match name pat = Ok (glob pat name).
+Proof. intros name pat. split; [apply match_key_is_glob | apply eval_glob_match_is_glob]. Qed.
+Print Assumptions C01_key_matching_is_glob.
 
 Theorem C01_key_without_metachars_is_exact : forall ro k p es st,
   is_wild k = false -> (length (find_key es k 0) <= 1)%nat ->
